@@ -23,17 +23,18 @@ void dec_bits_init(Bitstrm *bs, const uint8_t *data, size_t numbytes) {
     uint32_t  nxt_word;
     uint32_t  temp;
     uint32_t *buf;
-    buf          = (uint32_t *)data;
-    temp         = *buf++;
-    cur_word     = TO_BIG_ENDIAN(temp);
-    temp         = *buf++;
-    nxt_word     = TO_BIG_ENDIAN(temp);
+    const uint8_t *end = data + numbytes;
+    buf                = (uint32_t *)data;
+    temp               = dec_bits_load_word(buf++, end);
+    cur_word           = TO_BIG_ENDIAN(temp);
+    temp               = dec_bits_load_word(buf++, end);
+    nxt_word           = TO_BIG_ENDIAN(temp);
     bs->bit_ofst = 0;
     bs->buf_base = (uint8_t *)data;
     bs->buf      = buf;
     bs->cur_word = cur_word;
     bs->nxt_word = nxt_word;
-    bs->buf_max  = (uint8_t *)data + numbytes + 8;
+    bs->buf_max  = (uint8_t *)data + numbytes;
     return;
 }
 
@@ -43,7 +44,7 @@ uint32_t dec_get_bits(Bitstrm *bs, uint32_t numbits) {
     uint32_t bits_read;
     if (0 == numbits)
         return 0;
-    GET_BITS(bits_read, bs->buf, bs->bit_ofst, bs->cur_word, bs->nxt_word, numbits);
+    GET_BITS(bits_read, bs->buf, bs->buf_max, bs->bit_ofst, bs->cur_word, bs->nxt_word, numbits);
     return bits_read;
 }
 
